@@ -8,6 +8,10 @@ NOTES = ("Driver: /verif/verif (python3, stdlib). Every check rebuilds harness/c
          "Known findings: /verif/KNOWN_FINDINGS.txt (read-only at run time). VERIF_SEED selects the rapid seeds; sweeps ignore it.")
 
 CLAIMED = {
+ "C05": dict(
+    technique="property-based testing (rapid): encode/decode/re-encode round trip over API-built values, decoder-built values and elements in mixed lists, compared through a reflective observer",
+    level_text="Top-level messages of every controller- and switch-originated kind built through the API are encoded and decoded through Parse (or the caller-allocated receiver for kinds Parse does not dispatch); values that only the decoder can produce (parsed from conformant frames of the independent encoder, incl. ONF experimenter OXMs) go through the same cycle; every action/instruction/bucket/match-field kind is decoded alone and followed by another element. Oracle: decode succeeds, same Go kind, equal observable dump under a closed normalisation list, Len() == extent, re-encoding == original bytes.",
+    level_note="Sampling. Normalisations are listed in the evidence rule; five decode-direction gaps (multipart request, bundle-add of undispatched kinds) are listed known findings."),
  "C08": dict(
     technique="fuzzing + property-based testing: one target per packet decoder, RFC-layout sample packets with located length-like fields, boundary/wrap-around overrides, exhaustive per-slot sweeps, native coverage-guided fuzzing (thorough); totality monitor as oracle",
     level_text="24 decoder entry points are driven with well-formed packets whose length-like fields (IHL, total length, header-extension length, option length, hardware length, data offset, source/group counts, aux length, DHCP/LLDP lengths) are overridden from boundary and wrap-around sets, truncated, byte-mutated, amplified to jumbo size, plus raw strings; the sweep enumerates every truncation, every 0x00/0xff byte, all 256 values of each one-byte slot and k*64 / k*16384 values of each two-byte slot on sample packets. Oracle: no panic, return within 20 s, < 1 GiB heap growth, allocation <= 1 KiB/byte + 4 MiB.",
@@ -61,4 +65,4 @@ for k in CLAIMED:
     ENGINES[0]["serves_properties"].append(k)
 
 NOT_APPLICABLE = {p: "check under construction in this round (design in DESIGN.md section 10); not claimed until it runs clean on the unchanged tree"
-                  for p in ["C05","C06","C09","C10","C11","C12","C13"]}
+                  for p in ["C06","C09","C10","C11","C12","C13"]}
